@@ -19,6 +19,8 @@ from .c12 import EXTRA
 SHAPES = {
     # characters that are special to logging / formatting layers: the text of a document must never be used as a format
     "format-characters": b"# Cost: $5 {0} %s\n\n$ pip install x gives 100%% of {name} and %d or %(k)s \\$ {} $$ ${var}\n\n- item $1\n\n> `$code` <b>$</b>\n",
+    "bom": "\ufeff#  Title\n\nSome text with an accent: caf\u00e9.".encode("utf-8"),
+    "url-fragments": b"# T\n\nPoint your browser at http://`hostname`:8080/admin\n\nmirror ftp://*yours*/pub and https://\n\nstarts with http://\n",
     "no-final-newline": b"# T\n\nlast line without newline   ",
     "crlf": b"# T\r\n\r\nSome text.   \r\n\r\n- a\r\n- b\r\n",
     "crlf-setext": b"Title\r\n=====\r\n\r\ntext   \r\n",
